@@ -641,7 +641,8 @@ impl<'a> GeneratorState<'a> {
     }
 
     pub fn write(&mut self, s: &str) -> Result<usize, std::io::Error> {
-        self.writer.write(s.as_bytes())
+        self.writer.write_all(s.as_bytes())?;
+        Ok(s.len())
     }
 
     fn function_is_actually_in_use(
